@@ -18,7 +18,8 @@ Rev(T) == {<<t[2], t[1]>> : t \in T}
 \* omega1 transitions among the states of a star set S (what StarSet.jumpnetwork_omega1 must list)
 J1Within(S, J) == {t \in SwingFrom(S, J) : t[2] \in S}
 \* omega1 transitions of a calculator with thermodynamic range Nth: start or end in the thermodynamic set
-J1(J, Nth) == LET T == SwingFrom(Reach(J, Nth), J) IN T \cup Rev(T)
+J1S(Thermo, J) == LET T == SwingFrom(Thermo, J) IN T \cup Rev(T)
+J1(J, Nth) == J1S(Reach(J, Nth), J)
 \* omega2 transitions: states from which one jump puts the vacancy on the solute
 J2(S, J) == {<<s, PSNeg(s)>> : s \in {x \in NonZero(S) : \E j \in J : j[1] = x[2] /\ PSIsZero(PSAdd(x, j))}}
 
